@@ -310,44 +310,41 @@ Proof.
         -- cbn [issues_from]. unfold issues_of at 1, digests_equal. cbn [re_calc re_exp]. rewrite Ed. cbn [app]. exact C.
         -- cbn [map]. unfold last_some. cbn [fold_left]. unfold r_repaired at 2, digests_equal. cbn [re_calc re_exp re_meas].
            destruct (a_meas a); rewrite ?Ed; exact D.
-      * apply bind_ok in E. destruct E as [p [Ep E]].
-        unfold is_pcrx in Ep.
-        assert (Hp0 : p = match a_meas a with Some m => regs && is_pcr0_meas m | None => false end).
-        { destruct regs; cbn [negb andb] in *.
-          - destruct (a_meas a); [inversion Ep; reflexivity|discriminate].
-          - inversion Ep. destruct (a_meas a); reflexivity. }
-        destruct (a_meas a) as [m|] eqn:Em.
-        -- destruct p.
+      * assert (Hp0 : is_pcrx regs (a_meas a) = match a_meas a with Some m => regs && is_pcr0_meas m | None => false end).
+        { unfold is_pcrx. destruct (a_meas a); [reflexivity|apply andb_false_r]. }
+        rewrite Hp0 in E. clear Hp0. revert E.
+        destruct (a_meas a) as [m|] eqn:Em; intro E.
+        -- destruct (regs && is_pcr0_meas m) eqn:Ep.
            ++ destruct (repair Hp P st m (ev_digest_bytes e)) as [v|] eqn:Er.
               ** apply push_ok in E. destruct E as [rs' [iss' [E [? ?]]]]; subst rs iss.
                  apply IH in E. destruct E as [A [B [C D]]]. repeat split.
                  --- constructor; [|exact A]. unfold entry_of. cbn [re_calc re_exp re_meas]. rewrite Ec, Ee. auto.
                  --- constructor; [|exact B]. unfold status_of, r_repaired, digests_equal. cbn [re_calc re_exp re_meas re_status].
-                     rewrite Ed, <- Hp0, Er. reflexivity.
+                     rewrite Ed, Ep, Er. reflexivity.
                  --- cbn [issues_from]. unfold issues_of at 1, r_repaired, digests_equal. cbn [re_calc re_exp re_meas].
-                     rewrite Ed, <- Hp0, Er. cbn [app]. f_equal. exact C.
+                     rewrite Ed, Ep, Er. cbn [app]. f_equal. exact C.
                  --- cbn [map]. unfold last_some. cbn [fold_left]. unfold r_repaired at 2, digests_equal. cbn [re_calc re_exp re_meas].
-                     rewrite Ed, <- Hp0, Er. exact D.
+                     rewrite Ed, Ep, Er. exact D.
               ** apply push_ok in E. destruct E as [rs' [iss' [E [? ?]]]]; subst rs iss.
                  apply IH in E. destruct E as [A [B [C D]]]. repeat split.
                  --- constructor; [|exact A]. unfold entry_of. cbn [re_calc re_exp re_meas]. rewrite Ec, Ee. auto.
                  --- constructor; [|exact B]. unfold status_of, r_repaired, digests_equal. cbn [re_calc re_exp re_meas re_status].
-                     rewrite Ed, <- Hp0, Er. reflexivity.
+                     rewrite Ed, Ep, Er. reflexivity.
                  --- cbn [issues_from]. unfold issues_of at 1, r_repaired, digests_equal. cbn [re_calc re_exp re_meas].
-                     rewrite Ed, <- Hp0, Er. cbn [app]. f_equal. exact C.
+                     rewrite Ed, Ep, Er. cbn [app]. f_equal. exact C.
                  --- cbn [map]. unfold last_some. cbn [fold_left]. unfold r_repaired at 2, digests_equal. cbn [re_calc re_exp re_meas].
-                     rewrite Ed, <- Hp0, Er. exact D.
+                     rewrite Ed, Ep, Er. exact D.
            ++ apply bind_ok in E. destruct E as [[] [_ E]].
               apply push_ok in E. destruct E as [rs' [iss' [E [? ?]]]]; subst rs iss.
               apply IH in E. destruct E as [A [B [C D]]]. repeat split.
               ** constructor; [|exact A]. unfold entry_of. cbn [re_calc re_exp re_meas]. rewrite Ec, Ee. auto.
               ** constructor; [|exact B]. unfold status_of, r_repaired, digests_equal. cbn [re_calc re_exp re_meas re_status].
-                 rewrite Ed, <- Hp0. reflexivity.
+                 rewrite Ed, Ep. reflexivity.
               ** cbn [issues_from]. unfold issues_of at 1, r_repaired, digests_equal. cbn [re_calc re_exp re_meas].
-                 rewrite Ed, <- Hp0. cbn [app]. f_equal. exact C.
+                 rewrite Ed, Ep. cbn [app]. f_equal. exact C.
               ** cbn [map]. unfold last_some. cbn [fold_left]. unfold r_repaired at 2, digests_equal. cbn [re_calc re_exp re_meas].
-                 rewrite Ed, <- Hp0. exact D.
-        -- subst p. apply bind_ok in E. destruct E as [[] [_ E]].
+                 rewrite Ed, Ep. exact D.
+        -- apply bind_ok in E. destruct E as [[] [_ E]].
            apply push_ok in E. destruct E as [rs' [iss' [E [? ?]]]]; subst rs iss.
            apply IH in E. destruct E as [A [B [C D]]]. repeat split.
            ++ constructor; [|exact A]. unfold entry_of. cbn [re_calc re_exp re_meas]. rewrite Ec, Ee. auto.
@@ -744,42 +741,17 @@ Proof.
     rewrite E. cbn [negb]. apply IH; [lia|assumption|assumption].
 Qed.
 
-(** recorded ranges that can be read from the image, and reference look-ups of
-    rangesToChunks that stay inside the reference list of the measurement handed to the
-    explainer *)
+(** ** The explainer after the repairs e99f02a / dbffb11: total, and every chunk it makes
+    can be read *)
+
+(** a recorded range that can be read from the image *)
 Definition range_readable (isz : Z) (r : Z * Z) : Prop :=
   chunk_readable isz (ChImage (is_phys_addr (fst r) isz) (fst r) (snd r)) = true.
 
-(** a (offset, length) pair with a length: it always makes a chunk *)
+(** a (offset, length) pair with a length *)
 Definition nonempty (r : Z * Z) : bool := 0 <? snd r.
 
 Definition has_raw (refs : list ref) : bool := existsb (fun rf => rf_kind rf =? REF_RAW) refs.
-
-(** can the pair make a chunk?  A pair with a length does; an empty one only when the
-    reference it looks up is a hard-coded value (possible only if there is one at all) *)
-Definition counts (refs : list ref) (r : Z * Z) : bool := nonempty r || has_raw refs.
-
-(** every pair of the list is read after fewer chunk-making pairs than there are
-    references: the look-up [References[len(chunks)]] made for it is in bounds.  Pairs
-    that make no chunk do not count: the list may well be longer than the reference list. *)
-Definition index_safe (refs : list ref) (ranges : list (Z * Z)) : Prop :=
-  forall pre r post, ranges = pre ++ r :: post ->
-    (length (filter (counts refs) pre) < length refs)%nat.
-
-Lemma filter_length_le' : forall {A} (f : A -> bool) (l : list A), (length (filter f l) <= length l)%nat.
-Proof. intros A f. induction l as [|x l IH]; cbn [filter length]; [lia|]. destruct (f x); cbn [length]; lia. Qed.
-
-Lemma index_safe_of_length : forall refs ranges,
-  (length ranges <= length refs)%nat -> index_safe refs ranges.
-Proof.
-  intros refs ranges L pre r post E. subst ranges. rewrite app_length in L. cbn [length] in L.
-  pose proof (filter_length_le' (counts refs) pre). lia.
-Qed.
-
-Definition ranges_safe (isz : Z) (m : option meas) (e : event) : Prop :=
-  forall p, parse_event_data e isz = Ok p ->
-    Forall (range_readable isz) (pr_ranges p) /\
-    match m with Some mm => index_safe (m_refs mm) (pr_ranges p) | None => True end.
 
 Lemma has_raw_of_nth : forall refs k rf,
   nth_error refs k = Some rf -> (rf_kind rf =? REF_RAW) = true -> has_raw refs = true.
@@ -788,161 +760,120 @@ Proof.
   split; [eapply nth_error_In; exact N|exact K].
 Qed.
 
-Lemma ranges_to_chunks_ok : forall isz m ranges chunks,
-  Forall (range_readable isz) ranges ->
-  forallb (chunk_readable isz) chunks = true ->
-  match m with
-  | Some mm => forall pre r post, ranges = pre ++ r :: post ->
-                 (length chunks + length (filter (counts (m_refs mm)) pre) < length (m_refs mm))%nat
-  | None => True
-  end ->
-  exists ch, ranges_to_chunks isz m ranges chunks = Ok ch /\ forallb (chunk_readable isz) ch = true.
+(** the offset rangesToChunks tests is the offset RawBytes reads at (both uint64) *)
+Lemma fits_offset : forall isz (phys : bool) off,
+  (if phys then wrap64 (off - wrap64 (PHYS_ADDR_BASE - isz)) else off) = image_offset isz phys off.
 Proof.
-  intros isz m. induction ranges as [|[off len] t IH]; intros chunks Fr Fc Hl; cbn [ranges_to_chunks].
-  - exists chunks. split; [reflexivity|exact Fc].
-  - inversion Fr as [|? ? R Fr']; subst. unfold range_readable in R. cbn [fst snd] in R.
-    assert (Hraw : exists raw, (match m with
-            | None => Ok false
-            | Some mm => match nth_error (m_refs mm) (length chunks) with
-                         | None => Panic
-                         | Some r => Ok (rf_kind r =? REF_RAW)
-                         end
-            end) = Ok raw /\
-            (raw = true -> match m with Some mm => has_raw (m_refs mm) = true | None => False end)).
-    { destruct m as [mm|]; [|exists false; split; [reflexivity|discriminate]].
-      destruct (nth_error (m_refs mm) (length chunks)) as [rf|] eqn:N.
-      - eexists. split; [reflexivity|]. intro K. eapply has_raw_of_nth; eassumption.
-      - exfalso. apply nth_error_None in N.
-        specialize (Hl [] (off, len) t eq_refl). cbn [filter length] in Hl. lia. }
-    destruct Hraw as [raw [Hraw Hr]]. rewrite Hraw. cbn [bind].
-    (* the tail's look-ups, given by how many chunks this pair added at most *)
-    assert (Htail : forall n, (n <= (if counts (match m with Some mm => m_refs mm | None => [] end) (off, len) then 1 else 0))%nat ->
-              match m with
-              | Some mm => forall pre r post, t = pre ++ r :: post ->
-                  (length chunks + n + length (filter (counts (m_refs mm)) pre) < length (m_refs mm))%nat
-              | None => True
-              end).
-    { intros n Hn. destruct m as [mm|]; [|exact I]. intros pre r post E.
-      specialize (Hl ((off, len) :: pre) r post). cbn [app] in Hl. rewrite E in Hl. specialize (Hl eq_refl).
-      cbn [filter] in Hl. destruct (counts (m_refs mm) (off, len)); cbn [length] in Hl; lia. }
-    destruct (0 <? len) eqn:Hlen.
-    + apply IH; [exact Fr'| |].
-      * rewrite forallb_app, Fc. cbn [forallb andb]. rewrite R. reflexivity.
-      * specialize (Htail 1%nat). destruct m as [mm|]; [|exact I].
-        intros pre r post E. rewrite app_length. cbn [length].
-        refine (Htail _ pre r post E). unfold counts, nonempty. cbn [snd]. rewrite Hlen. cbn [orb]. lia.
-    + destruct raw.
-      * apply IH; [exact Fr'| |].
-        -- rewrite forallb_app, Fc. reflexivity.
-        -- specialize (Htail 1%nat). destruct m as [mm|]; [|exact I].
-           intros pre r post E. rewrite app_length. cbn [length].
-           refine (Htail _ pre r post E). unfold counts. rewrite (Hr eq_refl). rewrite orb_true_r. lia.
-      * apply IH; [exact Fr'|exact Fc|].
-        specialize (Htail 0%nat). destruct m as [mm|]; [|exact I].
-        intros pre r post E. specialize (Htail ltac:(lia) pre r post E). lia.
+  intros isz phys off. unfold image_offset. destruct phys; [|reflexivity].
+  rewrite !wrap64_mod. rewrite Zminus_mod_idemp_r. f_equal. lia.
 Qed.
 
-Lemma explain_safe : forall isz m e, ranges_safe isz m e -> explain isz m e <> Panic.
+(** the test of rangesToChunks is sufficient: a range it keeps can be read ... *)
+Lemma range_fits_readable : forall isz phys off len,
+  range_fits isz phys off len = true -> chunk_readable isz (ChImage phys off len) = true.
 Proof.
-  intros isz m e Hs. unfold explain.
+  intros isz phys off len F. unfold range_fits in F. rewrite fits_offset in F.
+  apply andb_prop in F. destruct F as [F1 F2]. apply Z.leb_le in F1. apply Z.leb_le in F2.
+  cbn [chunk_readable]. apply Z.leb_le. lia.
+Qed.
+
+(** ... and exact: a range (of a non-negative length) that can be read is kept *)
+Lemma range_fits_iff_readable : forall isz phys off len,
+  0 <= len -> 0 <= image_offset isz phys off ->
+  (range_fits isz phys off len = true <-> chunk_readable isz (ChImage phys off len) = true).
+Proof.
+  intros isz phys off len L O. split; [apply range_fits_readable|].
+  cbn [chunk_readable]. intro R. apply Z.leb_le in R.
+  unfold range_fits. rewrite fits_offset. apply andb_true_intro. split; apply Z.leb_le; lia.
+Qed.
+
+Lemma ranges_to_chunks_readable : forall isz m ranges chunks,
+  forallb (chunk_readable isz) chunks = true ->
+  forallb (chunk_readable isz) (ranges_to_chunks isz m ranges chunks) = true.
+Proof.
+  intros isz m. induction ranges as [|[off len] t IH]; intros chunks Fc; cbn [ranges_to_chunks]; [exact Fc|].
+  destruct (0 <? len).
+  - destruct (range_fits isz (is_phys_addr off isz) off len) eqn:Ff.
+    + apply IH. rewrite forallb_app, Fc. cbn [forallb andb]. rewrite (range_fits_readable _ _ _ _ Ff). reflexivity.
+    + apply IH. exact Fc.
+  - match goal with |- context [if ?r then _ else _] => destruct r end.
+    + apply IH. rewrite forallb_app, Fc. reflexivity.
+    + apply IH. exact Fc.
+Qed.
+
+(** newLogEntryExplainer's analysis of a recorded entry never panics: for every image
+    size, every measurement (or none) and every event *)
+Theorem explain_no_panic : forall isz m e, explain isz m e <> Panic.
+Proof.
+  intros isz m e. unfold explain.
   destruct (parse_event_data_total e isz) as [T1 T2].
   destruct (parse_event_data e isz) as [p| | |] eqn:Ep; try discriminate; try congruence.
-  destruct (Hs p Ep) as [Fr Hl].
-  destruct (ranges_to_chunks_ok isz m (pr_ranges p) [] Fr eq_refl) as [ch [E F]].
-  - destruct m as [mm|]; [|exact I]. intros pre r post Eq. cbn [length]. exact (Hl pre r post Eq).
-  - rewrite E. cbn [bind]. rewrite F. discriminate.
+  rewrite (ranges_to_chunks_readable isz m (pr_ranges p) [] eq_refl). discriminate.
 Qed.
 
-(** EXACT for a measurement without hard-coded references (image ranges only, as the
-    firmware-volume measurements are): the look-up panics iff some pair of the list comes
-    after at least as many NON-EMPTY pairs as there are references. *)
-Lemma ranges_to_chunks_panic_iff_gen : forall isz mm,
-  has_raw (m_refs mm) = false ->
+(** What the chunks are, for a measurement without hard-coded references (image ranges
+    only, as the firmware-volume measurements are) or no measurement at all: one image
+    chunk per range that has a length and fits the image, in order - whatever the number
+    of ranges and of references. *)
+Definition kept (isz : Z) (r : Z * Z) : bool :=
+  nonempty r && range_fits isz (is_phys_addr (fst r) isz) (fst r) (snd r).
+
+Definition image_chunk (isz : Z) (r : Z * Z) : chunk := ChImage (is_phys_addr (fst r) isz) (fst r) (snd r).
+
+Lemma ranges_to_chunks_image_only_gen : forall isz m,
+  match m with Some mm => has_raw (m_refs mm) = false | None => True end ->
   forall ranges chunks,
-  (ranges_to_chunks isz (Some mm) ranges chunks = Panic <->
-   exists pre r post, ranges = pre ++ r :: post /\
-     (length (m_refs mm) <= length chunks + length (filter nonempty pre))%nat).
+  ranges_to_chunks isz m ranges chunks = chunks ++ map (image_chunk isz) (filter (kept isz) ranges).
 Proof.
-  intros isz mm NR. induction ranges as [|[off len] t IH]; intro chunks; cbn [ranges_to_chunks].
-  - split; [discriminate|]. intros [pre [r [post [E _]]]]. destruct pre; discriminate.
-  - destruct (nth_error (m_refs mm) (length chunks)) as [rf|] eqn:N.
-    + assert (Kraw : (rf_kind rf =? REF_RAW) = false).
-      { destruct (rf_kind rf =? REF_RAW) eqn:K; [|reflexivity].
-        rewrite (has_raw_of_nth _ _ _ N K) in NR. discriminate. }
-      rewrite Kraw. cbn [bind].
-      assert (Hlt : (length chunks < length (m_refs mm))%nat) by (apply nth_error_Some; congruence).
-      destruct (0 <? len) eqn:Hlen.
-      * rewrite IH. rewrite app_length. cbn [length]. split.
-        -- intros [pre [r [post [E L]]]]. exists ((off, len) :: pre), r, post. split; [rewrite E; reflexivity|].
-           cbn [filter]. unfold nonempty at 1. cbn [snd]. rewrite Hlen. cbn [length]. lia.
-        -- intros [pre [r [post [E L]]]]. destruct pre as [|x pre].
-           ++ cbn [filter length] in L. lia.
-           ++ cbn [app] in E. inversion E; subst. exists pre, r, post. split; [reflexivity|].
-              cbn [filter] in L. unfold nonempty at 1 in L. cbn [snd] in L. rewrite Hlen in L. cbn [length] in L. lia.
-      * rewrite IH. split.
-        -- intros [pre [r [post [E L]]]]. exists ((off, len) :: pre), r, post. split; [rewrite E; reflexivity|].
-           cbn [filter]. unfold nonempty at 1. cbn [snd]. rewrite Hlen. exact L.
-        -- intros [pre [r [post [E L]]]]. destruct pre as [|x pre].
-           ++ cbn [filter length] in L. lia.
-           ++ cbn [app] in E. inversion E; subst. exists pre, r, post. split; [reflexivity|].
-              cbn [filter] in L. unfold nonempty at 1 in L. cbn [snd] in L. rewrite Hlen in L. exact L.
-    + cbn [bind]. split; [intros _|reflexivity].
-      exists [], (off, len), t. split; [reflexivity|]. apply nth_error_None in N. cbn [filter length]. lia.
+  intros isz m NR. induction ranges as [|[off len] t IH]; intro chunks; cbn [ranges_to_chunks filter map].
+  - rewrite app_nil_r. reflexivity.
+  - assert (Hraw : match m with
+                   | None => false
+                   | Some mm => match nth_error (m_refs mm) (length chunks) with
+                                | None => false
+                                | Some r => rf_kind r =? REF_RAW
+                                end
+                   end = false).
+    { destruct m as [mm|]; [|reflexivity].
+      destruct (nth_error (m_refs mm) (length chunks)) as [rf|] eqn:N; [|reflexivity].
+      destruct (rf_kind rf =? REF_RAW) eqn:K; [|reflexivity].
+      rewrite (has_raw_of_nth _ _ _ N K) in NR. discriminate. }
+    rewrite Hraw. unfold kept at 1, nonempty. cbn [fst snd].
+    destruct (0 <? len); cbn [andb].
+    + destruct (range_fits isz (is_phys_addr off isz) off len); cbn [map].
+      * rewrite IH, <- app_assoc. reflexivity.
+      * apply IH.
+    + apply IH.
 Qed.
 
-Theorem ranges_to_chunks_panic_iff : forall isz mm ranges,
-  has_raw (m_refs mm) = false ->
-  (ranges_to_chunks isz (Some mm) ranges [] = Panic <->
-   exists pre r post, ranges = pre ++ r :: post /\
-     (length (m_refs mm) <= length (filter nonempty pre))%nat).
-Proof.
-  intros isz mm ranges NR. rewrite (ranges_to_chunks_panic_iff_gen isz mm NR ranges []). cbn [length]. reflexivity.
-Qed.
+Theorem ranges_to_chunks_image_only : forall isz m ranges,
+  match m with Some mm => has_raw (m_refs mm) = false | None => True end ->
+  ranges_to_chunks isz m ranges [] = map (image_chunk isz) (filter (kept isz) ranges).
+Proof. intros isz m ranges NR. apply (ranges_to_chunks_image_only_gen isz m NR ranges []). Qed.
 
 Section NoPanic.
 Variable Hp : meas -> Z -> list Z.
 
-(** An aligned entry on which the loop cannot panic: the digests agree (nothing is
-    analysed), or — a measurement is there whenever TXT registers are (no nil
-    dereference) and — the entry is a PCR0_DATA one (repaired, not explained) or the
-    explainer's ranges are safe. *)
-Definition safe_entry (regs : bool) (isz : Z) (a : aentry) : Prop :=
-  match a_calc a, a_exp a with
-  | Some c, Some e =>
-      digests_equal c e = true \/
-      ((regs = true -> a_meas a <> None) /\
-       ((regs = true /\ exists m, a_meas a = Some m /\ is_pcr0_meas m = true) \/ ranges_safe isz (a_meas a) e))
-  | None, Some e => ranges_safe isz (a_meas a) e
-  | _, _ => True
-  end.
-
 Lemma push_not_panic : forall r is o, o <> Panic -> push r is o <> Panic.
 Proof. intros r is [[[rs iss] u]| | |] H; cbn [push bind]; try discriminate. congruence. Qed.
 
+(** the loop of ReproduceEventLog cannot panic, whatever the aligned entries are *)
 Lemma result_loop_no_panic : forall P isz regs st l idx upd0,
-  Forall (safe_entry regs isz) l -> result_loop Hp P isz regs st idx l upd0 <> Panic.
+  result_loop Hp P isz regs st idx l upd0 <> Panic.
 Proof.
-  induction l as [|a l IH]; intros idx upd0 F; cbn [result_loop]; [discriminate|].
-  inversion F as [|? ? S F']; subst. unfold safe_entry in S.
-  destruct (a_calc a) as [c|] eqn:Ec; destruct (a_exp a) as [e|] eqn:Ee.
-  - destruct (zlist_eqb (ev_digest_bytes e) (s_digest c)) eqn:D.
-    + apply push_not_panic. apply IH. exact F'.
-    + destruct S as [S|[S1 S2]]; [unfold digests_equal in S; congruence|].
-      unfold is_pcrx. destruct regs; cbn [negb].
-      * destruct (a_meas a) as [m|] eqn:Em; [|exfalso; apply (S1 eq_refl); reflexivity].
-        cbn [bind]. destruct (is_pcr0_meas m) eqn:Ip.
-        -- destruct (repair Hp P st m (ev_digest_bytes e)); apply push_not_panic; apply IH; exact F'.
-        -- destruct S2 as [[_ [m' [M1 M2]]]|S2]; [inversion M1; subst; congruence|].
-           apply bind_not_panic; [apply explain_safe; exact S2|].
-           intros _ _. apply push_not_panic. apply IH. exact F'.
-      * cbn [bind]. destruct S2 as [[K _]|S2]; [discriminate|].
-        assert (G : bind (explain isz (a_meas a) e) (fun _ =>
-                      push (mkR (a_meas a) (Some c) (Some e) StMismatch) [IMismatch idx]
-                           (result_loop Hp P isz false st (idx + 1) l upd0)) <> Panic).
-        { apply bind_not_panic; [apply explain_safe; exact S2|]. intros _ _. apply push_not_panic. apply IH. exact F'. }
-        destruct (a_meas a); exact G.
-  - apply push_not_panic. apply IH. exact F'.
-  - apply bind_not_panic; [apply explain_safe; exact S|]. intros _ _. apply push_not_panic. apply IH. exact F'.
+  induction l as [|a l IH]; intros idx upd0; cbn [result_loop]; [discriminate|].
+  destruct (a_calc a) as [c|]; destruct (a_exp a) as [e|].
+  - destruct (zlist_eqb (ev_digest_bytes e) (s_digest c)).
+    + apply push_not_panic. apply IH.
+    + assert (G : bind (explain isz (a_meas a) e) (fun _ =>
+                    push (mkR (a_meas a) (Some c) (Some e) StMismatch) [IMismatch idx]
+                         (result_loop Hp P isz regs st (idx + 1) l upd0)) <> Panic).
+      { apply bind_not_panic; [apply explain_no_panic|]. intros _ _. apply push_not_panic. apply IH. }
+      destruct (is_pcrx regs (a_meas a)); [|exact G].
+      destruct (a_meas a) as [m|]; [|exact G].
+      destruct (repair Hp P st m (ev_digest_bytes e)); apply push_not_panic; apply IH.
+  - apply push_not_panic. apply IH.
+  - apply bind_not_panic; [apply explain_no_panic|]. intros _ _. apply push_not_panic. apply IH.
   - discriminate.
 Qed.
 
@@ -983,7 +914,7 @@ Proof.
     destruct (negb (length es =? length cs)%nat); discriminate.
 Qed.
 
-Theorem no_panic_partial : forall P isz regs cmds evlog recorded alg st oracle sims,
+Theorem no_panic : forall P isz regs cmds evlog recorded alg st oracle sims,
   (* a simulated boot alignLogAndMeasurements accepts, with digests of the bank's size *)
   sim_align cmds evlog 0 alg = Ok sims ->
   (forall size, hash_size alg = Some size ->
@@ -991,12 +922,9 @@ Theorem no_panic_partial : forall P isz regs cmds evlog recorded alg st oracle s
   (* bitmaps of the lengths of the two lists (one [make] in the Go code) *)
   (forall log es, recorded = Some log -> filterEvents log 0 alg = Ok es ->
      length (fst oracle) = length es /\ length (snd oracle) = length sims) ->
-  (* every entry of the chosen alignment is safe *)
-  (forall log es ps, recorded = Some log -> filterEvents log 0 alg = Ok es ->
-     align_logs es (map snd sims) oracle = Ok ps -> Forall (safe_entry regs isz) (attach sims ps)) ->
   reproduce Hp P isz regs cmds evlog recorded alg st oracle <> Panic.
 Proof.
-  intros P isz regs cmds evlog recorded alg st oracle sims S Hd Hl Hs.
+  intros P isz regs cmds evlog recorded alg st oracle sims S Hd Hl.
   unfold reproduce. destruct recorded as [log|]; [|discriminate].
   rewrite S. cbn [bind].
   destruct (filterEvents_total log 0 alg) as [T _].
@@ -1005,7 +933,7 @@ Proof.
   destruct (Hl log es eq_refl F) as [L1 L2].
   apply bind_not_panic.
   - apply (align_logs_no_panic es (map snd sims) oracle size); [exact Fr|apply Hd; exact Hsz|exact L1|rewrite map_length; exact L2].
-  - intros ps A. apply result_loop_no_panic. apply (Hs log es ps eq_refl F A).
+  - intros ps A. apply result_loop_no_panic.
 Qed.
 
 End NoPanic.
@@ -1064,7 +992,7 @@ Lemma range_readable_iff : forall isz off len,
   0 < isz <= PHYS_ADDR_BASE -> is_phys_addr off isz = true ->
   (range_readable isz (off, len) <-> off + len <= PHYS_ADDR_BASE).
 Proof.
-  intros isz off len Hi Hp. unfold range_readable. cbn [fst snd]. rewrite Hp. cbn [chunk_readable].
+  intros isz off len Hi Hp. unfold range_readable. cbn [fst snd]. rewrite Hp. cbn [chunk_readable image_offset].
   unfold is_phys_addr in Hp. apply andb_prop in Hp. destruct Hp as [H1 H2].
   apply Z.leb_le in H1. apply Z.ltb_lt in H2.
   assert (W : wrap64 (PHYS_ADDR_BASE - isz) = PHYS_ADDR_BASE - isz).
@@ -1134,16 +1062,19 @@ Qed.
 
 End Combine.
 
-(** * Witnesses of the three panics (closed computations on the model) *)
+(** * The inputs of the repaired defects (closed computations on the model): each one
+    made ReproduceEventLog panic before the repair and is reported as a plain mismatch /
+    unexpected entry now *)
 
 Definition w_dg (b : Z) : list Z := repeat b 20.
 Definition w_st : settings := mkSt false 0 8 2 10.
 Definition w_hp : meas -> Z -> list Z := fun _ _ => [].
 Definition w_isz : Z := 65536.
 
-(** D20: one simulated EV_POST_CODE event measured from ONE image range; the recorded
-    entry has the same type, another digest, and event data with TWO (length, offset)
-    pairs (16 bytes at 0xFFFF0000 and at 0xFFFF1000), both inside the image *)
+(** D20 (repaired by e99f02a): one simulated EV_POST_CODE event measured from ONE image
+    range; the recorded entry has the same type, another digest, and event data with TWO
+    (length, offset) pairs (16 bytes at 0xFFFF0000 and at 0xFFFF1000), both inside the
+    image.  The look-up References[1] of 1 is no longer made; both ranges become chunks. *)
 Definition w_meas : meas := mkMeas 0 0 [mkRef REF_IMAGE [(4294901760, 16)]].
 Definition w_cmds : list (bool * scmd) := [(true, SExtend 0 4 (Some w_meas)); (false, SLogAdd 0 4)].
 Definition w_evlog : list sim_ev := [mkSim 0 EV_POST_CODE (w_dg 1)].
@@ -1152,10 +1083,18 @@ Definition w_two_pairs : list Z :=
 Definition w_log_d20 : list event := [mkEv 0 EV_POST_CODE w_two_pairs (Some (mkDg 4 (w_dg 2)))].
 
 Lemma witness_d20 :
-  reproduce w_hp 4 w_isz false w_cmds w_evlog (Some w_log_d20) 4 w_st ([false], [false]) = Panic.
-Proof. vm_compute. reflexivity. Qed.
+  exists rs, reproduce w_hp 4 w_isz false w_cmds w_evlog (Some w_log_d20) 4 w_st ([false], [false])
+             = Ok (rs, [IMismatch 0], None) /\ map re_status rs = [StMismatch].
+Proof. eexists. vm_compute. split; reflexivity. Qed.
 
-(** the same boot and entry with ONE pair is fine: a mismatch is reported *)
+Lemma witness_d20_chunks :
+  forall p, parse_event_data (mkEv 0 EV_POST_CODE w_two_pairs (Some (mkDg 4 (w_dg 2)))) w_isz = Ok p ->
+    (length (pr_ranges p) > length (m_refs w_meas))%nat /\
+    ranges_to_chunks w_isz (Some w_meas) (pr_ranges p) [] =
+      [ChImage true 4294905856 16; ChImage true 4294901760 16].
+Proof. intros p E. vm_compute in E. inversion E; subst p; clear E. split; [cbn; lia|reflexivity]. Qed.
+
+(** the same boot and entry with ONE pair: a mismatch is reported *)
 Definition w_one_pair : list Z := [16;0;0;0;0;0;0;0; 0;0;255;255;0;0;0;0].
 Definition w_log_one : list event := [mkEv 0 EV_POST_CODE w_one_pair (Some (mkDg 4 (w_dg 2)))].
 Lemma witness_one_pair_ok :
@@ -1163,10 +1102,9 @@ Lemma witness_one_pair_ok :
              = Ok (rs, [IMismatch 0], None) /\ map re_status rs = [StMismatch].
 Proof. eexists. vm_compute. split; reflexivity. Qed.
 
-(** EMPTY pairs (length 0) make no chunk over an image reference and are not counted: the
-    same entry with the data [16 bytes at 0xFFFF0000][0 bytes at 0xFFFF1000][0 bytes at
-    0xFFFF1000] - THREE pairs for ONE reference, the empty ones read first - is a plain
-    mismatch ... *)
+(** EMPTY pairs (length 0) make no chunk over an image reference: the same entry with the
+    data [16 bytes at 0xFFFF0000][0 bytes at 0xFFFF1000][0 bytes at 0xFFFF1000] - THREE
+    pairs for ONE reference, the empty ones read first ... *)
 Definition w_empty_pair : list Z := [0;0;0;0;0;0;0;0; 0;16;255;255;0;0;0;0].
 Definition w_log_real_empty_empty : list event :=
   [mkEv 0 EV_POST_CODE (w_one_pair ++ w_empty_pair ++ w_empty_pair) (Some (mkDg 4 (w_dg 2)))].
@@ -1175,59 +1113,55 @@ Lemma witness_empty_pairs_ok :
              = Ok (rs, [IMismatch 0], None) /\ map re_status rs = [StMismatch].
 Proof. eexists. vm_compute. split; reflexivity. Qed.
 
-(** ... its ranges are safe in the sense of the no-panic theorem although there are more
-    of them than references ... *)
-Lemma witness_empty_pairs_safe :
-  forall p, parse_event_data (mkEv 0 EV_POST_CODE (w_one_pair ++ w_empty_pair ++ w_empty_pair) (Some (mkDg 4 (w_dg 2)))) w_isz = Ok p ->
-    (length (pr_ranges p) > length (m_refs w_meas))%nat /\
-    index_safe (m_refs w_meas) (pr_ranges p) /\ Forall (range_readable w_isz) (pr_ranges p).
-Proof.
-  intros p E. vm_compute in E. inversion E; subst p; clear E. cbn [pr_ranges].
-  split; [cbn; lia|]. split.
-  - intros pre r post Eq. cbn [m_refs w_meas length].
-    destruct pre as [|a [|b [|c pre]]]; cbn [app] in Eq; inversion Eq; subst; cbn; try lia.
-    destruct pre; discriminate.
-  - repeat constructor.
-Qed.
-
-(** ... but with the empty pair stored FIRST (so that it is read after the real one) the
-    look-up for it is already out of bounds: References[1] of 1. *)
+(** ... and with the empty pair stored FIRST, so that it is read after the real one (the
+    second D20 input: the look-up for it was References[1] of 1) *)
 Definition w_log_empty_real : list event :=
   [mkEv 0 EV_POST_CODE (w_empty_pair ++ w_one_pair) (Some (mkDg 4 (w_dg 2)))].
 Lemma witness_empty_after_real :
-  reproduce w_hp 4 w_isz false w_cmds w_evlog (Some w_log_empty_real) 4 w_st ([false], [false]) = Panic.
-Proof. vm_compute. reflexivity. Qed.
+  exists rs, reproduce w_hp 4 w_isz false w_cmds w_evlog (Some w_log_empty_real) 4 w_st ([false], [false])
+             = Ok (rs, [IMismatch 0], None) /\ map re_status rs = [StMismatch].
+Proof. eexists. vm_compute. split; reflexivity. Qed.
 
-(** nil measurement: a startup-locality entry (EventLogAdd without Extend) whose recorded
-    digest differs, TXT registers present *)
+(** nil measurement (repaired by 60718db): a startup-locality entry (EventLogAdd without
+    Extend) whose recorded digest differs, TXT registers present: a mismatch without a
+    measurement, the same as without registers *)
 Definition w_cmds_loc : list (bool * scmd) := [(true, SLogAdd 0 4)].
 Definition w_evlog_loc : list sim_ev := [mkSim 0 EV_NO_ACTION (w_dg 0)].
 Definition w_log_loc : list event := [mkEv 0 EV_NO_ACTION (startup_data 3) (Some (mkDg 4 (w_dg 1)))].
 
 Lemma witness_nil_measurement :
-  reproduce w_hp 4 w_isz true w_cmds_loc w_evlog_loc (Some w_log_loc) 4 w_st ([false], [false]) = Panic.
-Proof. vm_compute. reflexivity. Qed.
+  exists rs, (forall regs, reproduce w_hp 4 w_isz regs w_cmds_loc w_evlog_loc (Some w_log_loc) 4 w_st ([false], [false])
+                           = Ok (rs, [IMismatch 0], None)) /\
+             map re_status rs = [StMismatch] /\ map re_meas rs = [None].
+Proof. eexists. split; [intros [|]; vm_compute; reflexivity|split; reflexivity]. Qed.
 
-(** ... without TXT registers the same input is a plain mismatch *)
-Lemma witness_nil_measurement_no_regs :
-  exists rs, reproduce w_hp 4 w_isz false w_cmds_loc w_evlog_loc (Some w_log_loc) 4 w_st ([false], [false])
-             = Ok (rs, [IMismatch 0], None).
-Proof. eexists. vm_compute. reflexivity. Qed.
-
-(** range past the image end: one pair, 0x20 bytes at 0xFFFFFFF0 *)
+(** range past the image end (repaired by dbffb11): one pair, 0x20 bytes at 0xFFFFFFF0 of
+    a 64 KiB image: the range is skipped, no chunk is made *)
 Definition w_past_end : list Z := [32;0;0;0;0;0;0;0; 240;255;255;255;0;0;0;0].
 Definition w_log_range : list event := [mkEv 0 EV_POST_CODE w_past_end (Some (mkDg 4 (w_dg 2)))].
 
 Lemma witness_range :
-  reproduce w_hp 4 w_isz false w_cmds w_evlog (Some w_log_range) 4 w_st ([false], [false]) = Panic.
-Proof. vm_compute. reflexivity. Qed.
+  exists rs, reproduce w_hp 4 w_isz false w_cmds w_evlog (Some w_log_range) 4 w_st ([false], [false])
+             = Ok (rs, [IMismatch 0], None) /\ map re_status rs = [StMismatch].
+Proof. eexists. vm_compute. split; reflexivity. Qed.
 
-(** an inserted (unexpected) entry with such a pair panics as well: no measurement is involved *)
+Lemma witness_range_skipped :
+  forall p, parse_event_data (mkEv 0 EV_POST_CODE w_past_end (Some (mkDg 4 (w_dg 2)))) w_isz = Ok p ->
+    pr_ranges p = [(4294967280, 32)] /\
+    ~ range_readable w_isz (4294967280, 32) /\
+    ranges_to_chunks w_isz (Some w_meas) (pr_ranges p) [] = [].
+Proof.
+  intros p E. vm_compute in E. inversion E; subst p; clear E. cbn [pr_ranges].
+  split; [reflexivity|split; [|reflexivity]]. unfold range_readable. vm_compute. discriminate.
+Qed.
+
+(** an inserted (unexpected) entry with such a pair: no measurement is involved *)
 Definition w_log_range_ins : list event :=
   [mkEv 0 EV_POST_CODE w_past_end (Some (mkDg 4 (w_dg 2))); mkEv 0 EV_POST_CODE [] (Some (mkDg 4 (w_dg 1)))].
 Lemma witness_range_unexpected :
-  reproduce w_hp 4 w_isz false w_cmds w_evlog (Some w_log_range_ins) 4 w_st ([true; false], [false]) = Panic.
-Proof. vm_compute. reflexivity. Qed.
+  exists rs, reproduce w_hp 4 w_isz false w_cmds w_evlog (Some w_log_range_ins) 4 w_st ([true; false], [false])
+             = Ok (rs, [IUnexpected 0], None) /\ map re_status rs = [StUnexpected; StMatch].
+Proof. eexists. vm_compute. split; reflexivity. Qed.
 
 (** Two PCR0_DATA measurements in one bank, both recorded with a decremented register
     (by 1 and by 2): both entries are marked matching, ONE register is returned (the
